@@ -35,19 +35,22 @@ def coq_eval_multi(tag, cases, fns, shard):
                 f.write('Goal True. let r := eval vm_compute in (%s 0%%N cases) in idtac "@@RESULT %s" r "@@END". exact I. Qed.\n' % (fn, fn))
         return subprocess.Popen(['timeout', '1200', 'coqc', '-noglob', '-Q', os.path.join(COQ, 'theories'), 'TV', path],
                                 cwd=d, stdout=subprocess.PIPE, stderr=subprocess.STDOUT, text=True)
-    pending = list(range(len(shards))); running = {}
+    pending = list(range(len(shards))); running = {}; tries = {}
     while pending or running:
         while pending and len(running) < 16:
-            k = pending.pop(0); running[k] = launch(k)
+            k = pending.pop(0); tries[k] = tries.get(k, 0) + 1; running[k] = launch(k)
         for k, p in list(running.items()):
             if p.poll() is not None:
                 out = p.stdout.read(); del running[k]
                 got = dict(re.findall(r'@@RESULT (\w+)\s*(.*?)@@END', out, re.S))
-                if p.returncode != 0 or set(got) != set(fns):
-                    errors.append('shard %d: coqc failed: %s' % (k, out.strip()[-600:]))
-                else:
+                if set(got) == set(fns):
+                    # all results were printed (a non-zero status after that can only be the time limit at exit)
                     for fn in fns:
                         res[fn] += [k * shard + int(x) for x in re.findall(r'(\d+)%N', got[fn])]
+                elif p.returncode in (124, 137) and tries[k] < 3:
+                    pending.append(k)      # killed by the time limit on a loaded machine: run it again
+                else:
+                    errors.append('shard %d: coqc failed (status %s): %s' % (k, p.returncode, out.strip()[-600:]))
         time.sleep(0.05)
     return res, errors
 
@@ -82,7 +85,7 @@ def main(argv):
         else:
             for f in sorted(glob.glob(os.path.join(VERIF, 'corpus', 'C06', '*.txt'))):
                 runs.append(['text', f, cfg_of(f)])
-            runs.append(['gen', 320 if tier == 'quick' else 12000])
+            runs.append(['gen', 240 if tier == 'quick' else 8000])
         for args in runs:
             base = len(cases)
             for l in run_harness(v, args, seed):
@@ -108,7 +111,7 @@ def main(argv):
                     {'class': 'c06-oracle:desugar-failed', 'source_text': f[-2] if len(f) >= 3 else '', 'cfg': int(f[-1]) if f[-1].isdigit() else 0, 'detail': f})
 
     phases['harness'] = round(_t.time() - t0, 1); t0 = _t.time()
-    shard = 40 if tier == 'quick' else 400
+    shard = 30 if tier == 'quick' else 100
     mism = []
     if v.corr_ok and cases:
         # (O) AstVm before vs after, found by the harness. Every difference must be accounted for by one of the three
@@ -139,7 +142,8 @@ def main(argv):
 
         phases['classification'] = round(_t.time() - t0, 1); t0 = _t.time()
         # (X) model vs implementation: invariants, flat statement list, both interpreters
-        mism, errs = coq_eval_cases(PROP, IMPORTS, 'c06case', cases, shard=shard)
+        res, errs = coq_eval_multi(PROP, cases, ['mismatches'], shard)
+        mism = sorted(res['mismatches'])
         v.obligation('correspondence: model = implementation on %d programs (wf invariant, flat list, AstVm nested = run_struct, AstVm flat = run_flat; vm_compute inside Coq)' % len(cases),
                      not mism and not errs, ('%d mismatches; ' % len(mism)) + '; '.join(errs)[:600] if (mism or errs) else '')
         if mism:
